@@ -33,11 +33,11 @@ const SURFACES: [(&str, &str); 8] = [
 ];
 const NUMS: [(&str, u16, u16, i16); 5] = [("0", 0, 1, 0), ("1", 1, 0, -1), ("1", 1, 1, 32767), ("0", 0, 0, -32768), ("\"1\"", 1, 1, 7)];
 const TAILS: [&str; 10] = ["f", "f,", "\"x,y\",z", "f\"q", "", ",", "f,g", "*", "\"l1\nl2\",w", " sp ,, "];
-const TERMS: [&str; 4] = ["\n", "\r\n", "", "\n\n"];
+const TERMS: [&str; 5] = ["\n", "\r\n", "", "\n\n", "\r"];
 
 fn rows(tier: Tier, three: bool) -> Vec<RowSpec> {
     let mut out = vec![];
-    let (ns, nn, nt, nm) = if three { (5, 2, 4, 3) } else { tier.pick((7, 4, 6, 4), (8, 5, 10, 4)) };
+    let (ns, nn, nt, nm) = if three { (5, 2, 4, 5) } else { tier.pick((7, 4, 6, 5), (8, 5, 10, 5)) };
     for (rs, s) in SURFACES.iter().take(ns) {
         for (lr, l, r, c) in NUMS.iter().take(nn) {
             for t in TAILS.iter().take(nt) {
@@ -216,7 +216,41 @@ pub fn run(tier: Tier) -> i32 {
             }
         }
     });
-    rep.rule = "state = lexicon CSV file of 1-3 rows, each row the product of a raw surface field (plain, with space, quoted with comma, quoted with doubled quote, gratuitously quoted, multi-byte, empty), an id/cost combination (incl. extremes and a quoted number), a raw feature tail (plain, several cells, quoted cell with comma, stray quote, empty, '*', quoted cell with a line break, spaces and empty cells) and a row terminator (LF, CRLF, none at EOF, LF LF), optionally after a leading blank line; built by the real builder; oracle: one word per non-empty-surface row in order, feature == raw tail byte for byte, lexicon candidates of each surface == its homograph multiset; the expected values come from the generating structure, no parser involved; distinct = distinct expected word lists".into();
+    // surface-order sweep: every sequence of up to 6/7 rows over three surfaces (homographs
+    // adjacent, separated, interleaved), each row with its own ids / cost / feature
+    let mut st = st;
+    {
+        let surf = ["a", "ab", "b"];
+        let seqs = all_seqs(surf.len(), tier.pick(6, 7));
+        const CH: usize = 64;
+        let res = par_explore(seqs.len().div_ceil(CH), |ti, st| {
+            for seq in &seqs[ti * CH..((ti + 1) * CH).min(seqs.len())] {
+                if seq.is_empty() {
+                    continue;
+                }
+                let feats: Vec<String> = (0..seq.len()).map(|i| format!("row{i},f{}", i % 3)).collect();
+                let rows: Vec<RowSpec> = seq
+                    .iter()
+                    .enumerate()
+                    .map(|(i, &si)| RowSpec {
+                        raw_surface: surf[si],
+                        surface: surf[si],
+                        left_raw: if i % 2 == 0 { "0" } else { "1" },
+                        left: (i % 2) as u16,
+                        right: ((i / 2) % 2) as u16,
+                        cost: (i as i16) * 3 - 4,
+                        tail: Box::leak(feats[i].clone().into_boxed_str()),
+                        term: "\n",
+                    })
+                    .collect();
+                let refs: Vec<&RowSpec> = rows.iter().collect();
+                check_file(&refs, "", st);
+                st.count("surface_order_files");
+            }
+        });
+        st.merge(res);
+    }
+    rep.rule = "state = lexicon CSV file of 1-3 rows, each row the product of a raw surface field (plain, with space, quoted with comma, quoted with doubled quote, gratuitously quoted, multi-byte, empty), an id/cost combination (incl. extremes and a quoted number), a raw feature tail (plain, several cells, quoted cell with comma, stray quote, empty, '*', quoted cell with a line break, spaces and empty cells) and a row terminator (LF, CRLF, none at EOF, LF LF), optionally after a leading blank line; plus every sequence of up to 6/7 rows over the surfaces {a, ab, b} (homographs adjacent, separated, interleaved); built by the real builder; oracle: one word per non-empty-surface row in order, feature == raw tail byte for byte, lexicon candidates of each surface == its homograph multiset; the expected values come from the generating structure, no parser involved; distinct = distinct expected word lists".into();
     rep.bounds = json!({"row_menu_2": n2, "row_menu_3": n3, "three_row_files": tier.pick("diagonal slice", "all")});
     if tier == Tier::Quick {
         rep.cap_note = Some("three-row files: a deterministic diagonal slice in the quick tier; one- and two-row files complete".into());
@@ -230,6 +264,7 @@ pub fn run(tier: Tier) -> i32 {
             "files_with_crlf",
             "files_with_homographs",
             "surfaces_looked_up",
+            "surface_order_files",
         ],
     )
 }
